@@ -1,7 +1,7 @@
 (* C19 - formats and load paths: for each format and each way of naming the file, the resolver
    picks the parser matching what save wrote and the loaded configuration equals the saved one;
    and the end-to-end atomic-save statement on configurations. *)
-From YV Require Import Common.Tac C19.C19Str C19.C19Model C19.C19Lib C19.C19PipeLib
+From YV Require Import Common.Tac C19.C19Str C19.C19B64 C19.C19Model C19.C19Lib C19.C19PipeLib
                        C19.C19ProofsKV C19.C19ProofsPipe C19.C19ProofsSave.
 From Coq Require Import Permutation.
 Local Open Scope N_scope.
@@ -11,7 +11,7 @@ Section Load.
   Variable b64dec : str -> option (list N).
   Variable jdumps : list (str * jval) -> str.
   Variable jloads : str -> option (list (str * jval)).
-  Hypothesis b64_rt : forall b, b64dec (b64enc b) = Some b.
+  Hypothesis b64_rt : forall b, bytes_ok b = true -> b64dec (b64enc b) = Some b.
   (* base64 text is made of [A-Za-z0-9+/=]: no comment character, newline or blank *)
   Hypothesis b64_clean : forall b, value_ok (b64enc b) = true.
   (* json.loads (json.dumps d, sort_keys=True) is d with its keys in sorted order *)
